@@ -404,8 +404,55 @@ def _remove_task(opname, types):
                            "key and attributes; the node and all its index entries disappear; nothing else changes")
 
 
+def _replace_task(old_name, new_name, types, extra_label):
+    """replace_op(node, new): old and new operation on the same registers; `extra_label` (None / "Fixed") is a per-object label the
+    NEW operation carries in addition (that is what the evolutionary solver does with same-class replacements)"""
+
+    def scenario(I):
+        sc = Scenario(I)
+        old, qw, cw = _op_and_wires(I, sc, old_name, types)
+        new, _, _ = _op_and_wires(I, sc, new_name, types)
+        if extra_label is not None:
+            new.fields["_labels"] = list(new.fields["_labels"]) + [extra_label]
+        node = sc.op_node("node")
+        sc.g.nodes.append([node, {"op": old}])
+        sc.g.closed.append(node)
+        for lab in _labels_of(I, old):
+            sc.c.fields["node_dict"].setdefault(lab, []).append(node)
+        other = sc.op_node("other")  # another node that carries every label involved: its entries must survive
+        I.path.assume(other != node)
+        for lab in set(_labels_of(I, old)) | set(_labels_of(I, new)):
+            sc.c.fields["node_dict"].setdefault(lab, []).append(other)
+        sc.old, sc.new, sc.node, sc.other = old, new, node, other
+        return sc, [node, new]
+
+    def check(I, sc, ret, P):
+        P.ob("graph.structure-unchanged", not [l for l in sc.g.log if l[0] not in ("set_node_attr",)], f"graph updated: {sc.g.log}")
+        ent = sc.g._find_node(I, sc.node)
+        P.ob("node.present", ent is not None)
+        if ent is not None:
+            P.ob("node.op-is-the-new-operation", ent[1].get("op") is sc.new)
+        lo, ln = set(_labels_of(I, sc.old)), set(_labels_of(I, sc.new))
+        for lab in sorted(lo | ln):
+            want = [sc.other] + ([sc.node] if lab in ln else [])
+            P.dict_list_is(f"node_dict[{lab}]", sc.c.fields["node_dict"].get(lab, []), want)
+        P.ob("node_id.unchanged", to_z3(sc.c.fields["_node_id"]) == sc.M)
+        names = [e["name"] for e in I.path.trace]
+        P.ob("openqasm-updated-for-new-op", names == ["_openqasm_update"] and I.path.trace[0]["args"][0] is sc.new, f"trace {names}")
+
+    return FragTask(f"{CDAG}:CircuitDAG.replace_op", scenario, check,
+                    f"replace_op[{old_name}->{new_name}{'+' + extra_label if extra_label else ''},{''.join(types)}]",
+                    clause="replace: the node keeps its place and edges; exactly the index entries of the old operation's labels, class "
+                           "name and register-type tag are removed and those of the new operation added (labels are per object); "
+                           "entries of other nodes untouched")
+
+
 def tasks(tier="quick"):
     T = []
+    for old_name, new_name, types, lab in [("Hadamard", "Hadamard", ("e",), "Fixed"), ("Hadamard", "Hadamard", ("p",), None),
+                                           ("CNOT", "CNOT", ("e", "p"), "Fixed"),
+                                           ("CNOT", "CNOT", ("e", "e"), None), ("MeasurementZ", "MeasurementZ", ("e",), "Fixed")]:
+        T.append(_replace_task(old_name, new_name, types, lab))
     for t in "epc":
         for kind in ("new", "existing", "gap"):
             T.append(_reg_task(kind, t))
